@@ -213,7 +213,8 @@ def is_stem_rst(t) -> bool:
     form1 = ("call", ("attr", const("."), "join"), (("slice", split, NONE, const(-1), NONE),), ())
     rsplit = ("sub", ("call", ("attr", BASENAME, "rsplit"), (const("."), const(1)), ()), const(0))
     splitext = ("sub", ("call", glob("os.path.splitext"), (BASENAME,), ()), const(0))
-    return s in (form1, rsplit, splitext)
+    rpart = ("sub", ("call", ("attr", BASENAME, "rpartition"), (const("."),), ()), const(0))
+    return s in (form1, rsplit, splitext, rpart)
 
 
 def rule_page_path(rep: Report, repo: Repo, rule: str) -> None:
